@@ -1,0 +1,16 @@
+//go:build verif
+// +build verif
+
+package miner
+
+import (
+	"time"
+
+	lpb "github.com/xuperchain/xupercore/bcs/ledger/xledger/xldgpb"
+	xctx "github.com/xuperchain/xupercore/kernel/common/xcontext"
+)
+
+// VerifPackBlock exposes the package-private packBlock to the verification harness (build tag verif).
+func (t *Miner) VerifPackBlock(ctx xctx.XContext, height int64, now time.Time, consData []byte) (*lpb.InternalBlock, error) {
+	return t.packBlock(ctx, height, now, consData)
+}
